@@ -187,3 +187,25 @@ def calls_default_arg(a, b):  # MUTATES: default
 
 def calls_default_arg_copied(a, b):  # MUTATES:
     return default_arg_copied(b)
+
+
+class Cached(object):
+    def __init__(self):
+        self.memo = None
+
+    def value(self):
+        if self.memo is None:
+            self.memo = [1]
+        return self.memo
+
+
+def lazily_cached_attribute(a, b):  # MUTATES: a
+    if a.memo is None:          # (an attribute of an argument may be None)
+        a.memo = b
+    return a.memo
+
+
+def optional_argument(a, b=None):  # MUTATES: a, b
+    if b is None:
+        b = a
+    b.append(1)
